@@ -185,4 +185,10 @@ example : "a" ≠ "ab" ∧ noChar '/' "a" ∧ noChar '/' "ab" := by decide
 key space (`tape_recorder_recordings/full/…`), so closing the former, if transient, removes the latter's objects -/
 example : ¬ Unrelated (fullRoot (mkCfg "full" false false)) (fullRoot (mkCfg "" false true)) := by decide
 
+/-- **The key layout of the code as it stands** (constants regenerated from `S3TapeCassette.FULL_KEY` / `METADATA_KEY` on
+every run) is the one the model's `base` / `fullRoot` / `metaRoot` are written with. -/
+theorem C15_layout_as_in_source :
+    PlaybackModel.Source.s3FullKey = "tape_recorder_recordings/{key_prefix}full/{id}" ∧
+    PlaybackModel.Source.s3MetadataKey = "tape_recorder_recordings/{key_prefix}metadata/{id}" := by decide
+
 end Properties.C15
